@@ -37,9 +37,9 @@ pub fn run() {
         ("two mints of i64::MAX of one asset (overflow -> entry removed)", Box::new({ let p=p.clone(); move || { let mut t = base_tx(); t.mints.push(Mint{ amount: tok(p.clone(), b"A", i64::MAX as i128), redeemer: E::None }); t.mints.push(Mint{ amount: tok(p.clone(), b"A", i64::MAX as i128), redeemer: E::None }); show(t) } })),
         ("two outputs tokens u64::MAX + u64::MAX in one output (PositiveCoin overflow -> removed)", Box::new({ let p=p.clone(); move || { let mut t = base_tx(); t.outputs[0].amount = E::Assets(vec![AssetExpr{policy:E::None,asset_name:E::None,amount:num(2000000)}, AssetExpr{policy:E::Bytes(p.clone()),asset_name:E::Bytes(b"A".to_vec()),amount:num(i64::MAX as i128)}, AssetExpr{policy:E::Bytes(p.clone()),asset_name:E::Bytes(b"A".to_vec()),amount:num(u64::MAX as i128 - (i64::MAX as i128) + 5)}]); show(t) } })),
         ("metadata key -1, value 2^64+5", Box::new(|| { let mut t = base_tx(); t.metadata.push(Metadata{ key: num(-1), value: num((1i128<<64)+5) }); show(t) })),
-        ("withdrawal amount -1", Box::new(|| { let mut t = base_tx(); t.adhoc.push(AdHocDirective{ name: "withdrawal".into(), data: HashMap::from([("credential".to_string(), E::Address(addr(ADDR_A))), ("amount".to_string(), num(-1)), ("redeemer".to_string(), E::None)]) }); show(t) })),
-        ("donation 2^64+9", Box::new(|| { let mut t = base_tx(); t.adhoc.push(AdHocDirective{ name: "treasury_donation".into(), data: HashMap::from([("coin".to_string(), num((1i128<<64)+9))]) }); show(t) })),
-        ("publish version 259 (as u8 = 3)", Box::new(|| { let mut t = base_tx(); t.adhoc.push(AdHocDirective{ name: "cardano_publish".into(), data: HashMap::from([("to".to_string(), E::Address(addr(ADDR_A))), ("amount".to_string(), ada(1)), ("version".to_string(), num(259)), ("script".to_string(), E::Bytes(vec![1,2,3]))]) }); let s = show(t); s.chars().take(200).collect() })),
+        ("withdrawal amount -1", Box::new(|| { let mut t = base_tx(); t.adhoc.push(AdHocDirective{ name: "withdrawal".into(), data: BTreeMap::from([("credential".to_string(), E::Address(addr(ADDR_A))), ("amount".to_string(), num(-1)), ("redeemer".to_string(), E::None)]) }); show(t) })),
+        ("donation 2^64+9", Box::new(|| { let mut t = base_tx(); t.adhoc.push(AdHocDirective{ name: "treasury_donation".into(), data: BTreeMap::from([("coin".to_string(), num((1i128<<64)+9))]) }); show(t) })),
+        ("publish version 259 (as u8 = 3)", Box::new(|| { let mut t = base_tx(); t.adhoc.push(AdHocDirective{ name: "cardano_publish".into(), data: BTreeMap::from([("to".to_string(), E::Address(addr(ADDR_A))), ("amount".to_string(), ada(1)), ("version".to_string(), num(259)), ("script".to_string(), E::Bytes(vec![1,2,3]))]) }); let s = show(t); s.chars().take(200).collect() })),
         ("list index 2^64 (as usize = 0)", Box::new(|| { format!("{:?}", E::EvalBuiltIn(Box::new(BuiltInOp::Property(E::List(vec![num(10), num(20)]), num(1i128<<64)))).reduce()) })),
         ("struct field index 2^64+1", Box::new(|| { format!("{:?}", E::EvalBuiltIn(Box::new(BuiltInOp::Property(E::Struct(StructExpr{ constructor: 0, fields: vec![num(10), num(20)] }), num((1i128<<64)+1)))).reduce()) })),
         ("None - 5", Box::new(|| { format!("{:?}", E::EvalBuiltIn(Box::new(BuiltInOp::Sub(E::None, num(5)))).reduce()) })),
